@@ -56,6 +56,10 @@ type Action struct {
 	Faults   []FaultEntry `json:"faults,omitempty"`
 	Params   *nodetypes.Params `json:"params,omitempty"`
 	Ts       uint64   `json:"ts,omitempty"`
+	Nodes    []NodeSpec `json:"nodes,omitempty"`
+	Round    int      `json:"round,omitempty"` // super-node cursor to install (-1: leave unset)
+	Ignore   []int    `json:"ignore,omitempty"`
+	Count    int      `json:"count,omitempty"`
 	Extra    map[string]string `json:"extra,omitempty"`
 
 	// outcome (filled by execution)
@@ -63,6 +67,18 @@ type Action struct {
 	Err  string `json:"err,omitempty"`
 	Note string `json:"note,omitempty"`
 	H    int64  `json:"h,omitempty"`
+}
+
+// NodeSpec is a node + pledge record installed directly (as InitGenesis would).
+type NodeSpec struct {
+	Acct      int     `json:"acct"`
+	Status    uint32  `json:"status"`
+	Rep       float32 `json:"rep"`
+	Role      uint32  `json:"role"`
+	LastAlive int64   `json:"lastAlive"`
+	Total     int64   `json:"total"`
+	Used      int64   `json:"used"`
+	NoPledge  bool    `json:"noPledge,omitempty"`
 }
 
 type FaultEntry struct {
